@@ -24,12 +24,24 @@ Radial  == { <<12, 4, 0, 12, 4, 12>>, <<10, 4, 2, 14, 4, 12>>, <<6, 4, 6, 16, 4,
 Conical == { <<12, 4, 0>>, <<11, 3, 90>>, <<12, 4, 30>>, <<0, 0, 180>>, <<7, 5, 45>> }                  \* cx, cy (half pixels), degrees
 
 F == 65536
+(* Transforms, chosen so that every branch of the three scanline functions is reached by a case in *)
+(* which the wrong branch would change pixels: no transform; affine (scale, rotation, shear);       *)
+(* m22 # 1 (affine in effect, but not "v.z = 1"); perspective in x only (per-pixel w), in y only    *)
+(* (w constant along a row but different per row: the linear "horizontal" one-scanline shortcut     *)
+(* and the radial/conical affine fast branches must NOT be taken), in both; w crossing zero along   *)
+(* a row and from row to row.                                                                       *)
 Transforms == { <<>>,
                 <<2 * F, 0, -4 * F, 0, 2 * F, -1 * F, 0, 0, F>>,              \* scale 2, translate
                 <<0, F, 3 * F, -F, 0, 8 * F, 0, 0, F>>,                       \* rotate 90
                 <<F \div 2, 0, F, 0, F \div 2, H, 0, 0, F>>,                   \* scale 1/2
-                <<F, 0, 0, 0, F, 0, F \div 4, 0, F>>,                          \* projective, w > 0
-                <<F, 0, 0, 0, F, 0, -(F \div 4), 0, F + (F \div 8)>> }         \* projective, w = 0 at pixel x = 4, negative beyond
+                <<F, H, 0, 0, F, 0, 0, 0, F>>,                                \* shear in x
+                <<F, 0, 0, 0, F, 0, 0, 0, 2 * F>>,                            \* w = 2 everywhere
+                <<F, 0, 0, 0, F, 0, F \div 4, 0, F>>,                          \* perspective in x, w > 0
+                <<F, 0, 0, 0, F, 0, -(F \div 4), 0, F + (F \div 8)>>,          \* perspective in x, w = 0 at pixel x = 4, negative beyond
+                <<F, 0, 0, 0, F, 0, 0, F \div 4, F>>,                          \* perspective in y only, w > 0
+                <<F, 0, 0, 0, F, 0, 0, -(F \div 2), F + (F \div 4)>>,          \* perspective in y only, w = 0 on row 2, negative on row 3
+                <<F, H, 0, 0, F, 0, 0, F \div 4, F>>,                          \* shear + perspective in y
+                <<F, 0, 0, 0, F, 0, F \div 8, -(F \div 8), F>> }               \* perspective in x and y
 
 GenInit == phase = 0 /\ scn = [a |-> 0] /\ GInit
 
@@ -54,4 +66,20 @@ Step ==
 GenSpec == GenInit /\ [][Step]_<<phase, scn, gst>>
 
 Emit == phase < 7 \/ PrintT(<<"VF:scenario", ToJson(scn)>>)
+
+(* ---- exhaustive grid: every geometry x every transform (breadth-first, all are initial states) --- *)
+(* with a fixed three-stop list (opaque red, half-transparent green, opaque blue); repeat mode and      *)
+(* pipeline are a deterministic function of the pair so that all of them occur.                         *)
+GridStops == << <<0, 65535, 65535, 0, 0>>, <<32768, 32896, 0, 65535, 0>>, <<65536, 65535, 0, 0, 65535>> >>
+RECURSIVE SumSeq(_, _)
+SumSeq(q, i) == IF i > Len(q) THEN 0 ELSE q[i] + SumSeq(q, i + 1)
+ModeSeq == <<"PAD", "NORMAL", "REFLECT", "NONE">>
+GridScn(kind, g, m) ==
+    LET h == SumSeq(g, 1) + Len(g) + (IF Len(m) = 0 THEN 0 ELSE (m[1] + m[2] + m[7] + m[8] + m[9]) \div 8192) IN
+    [stops |-> GridStops, kind |-> kind, g |-> g, repeat |-> ModeSeq[(h % 4) + 1], m |-> m, wide |-> (h \div 4) % 2 = 1]
+Grid == {GridScn("linear",  [i \in 1..4 |-> g[i] * H], m) : g \in Linear, m \in Transforms}
+        \cup {GridScn("radial",  [i \in 1..6 |-> g[i] * H], m) : g \in Radial, m \in Transforms}
+        \cup {GridScn("conical", <<g[1] * H, g[2] * H, g[3] * F>>, m) : g \in Conical, m \in Transforms}
+GridInit == phase = 7 /\ scn \in Grid /\ GInit
+GridSpec == GridInit /\ [][UNCHANGED <<phase, scn, gst>>]_<<phase, scn, gst>>
 =============================================================================
